@@ -148,6 +148,32 @@ def run(repo: Repo) -> Result:
                 tgt, v = st.target, st.value
             if tgt is not None and isinstance(v, ast.Call) and callee_name(v) == "defaultdict":
                 dd_vars.add(text(tgt))
+        # a parameter of a private helper annotated DefaultDict[...] to which every call site in the
+        # class hands a defaultdict of its own
+        if f.name.startswith("_") and f.cls is not None:
+            for a_ in f.node.args.args + f.node.args.kwonlyargs:
+                if a_.annotation is not None and text(a_.annotation).split("[")[0].split(".")[-1] in ("DefaultDict", "defaultdict"):
+                    ok_sites = []
+                    for g in f.cls.methods.values():
+                        g_dd = {text(st.targets[0] if isinstance(st, ast.Assign) else st.target) for st in walk_no_nested(g.node) if isinstance(st, (ast.Assign, ast.AnnAssign)) and isinstance(st.value, ast.Call) and callee_name(st.value) == "defaultdict"}
+                        # names unpacked from a helper that returns its own defaultdicts
+                        for st in walk_no_nested(g.node):
+                            if isinstance(st, ast.Assign) and isinstance(st.targets[0], ast.Tuple) and isinstance(st.value, ast.Call) and isinstance(st.value.func, ast.Attribute) and is_name(st.value.func.value, "self") and st.value.func.attr in f.cls.methods:
+                                h_ = f.cls.methods[st.value.func.attr]
+                                h_dd = {text(x.targets[0] if isinstance(x, ast.Assign) else x.target) for x in walk_no_nested(h_.node) if isinstance(x, (ast.Assign, ast.AnnAssign)) and isinstance(x.value, ast.Call) and callee_name(x.value) == "defaultdict"}
+                                rets_ = [r.value for r in walk_no_nested(h_.node) if isinstance(r, ast.Return) and isinstance(r.value, ast.Tuple)]
+                                if len(rets_) == 1 and len(rets_[0].elts) == len(st.targets[0].elts):
+                                    for t_, e_ in zip(st.targets[0].elts, rets_[0].elts):
+                                        if isinstance(t_, ast.Name) and text(e_) in h_dd:
+                                            g_dd.add(t_.id)
+                        for c_ in ast.walk(g.node):
+                            if isinstance(c_, ast.Call) and callee_name(c_) == f.name:
+                                from ..astutil import bind_args as _ba21
+
+                                b_ = _ba21(c_, f.node) or {}
+                                ok_sites.append(b_.get(a_.arg) is not None and text(b_[a_.arg]) in g_dd)
+                    if ok_sites and all(ok_sites):
+                        dd_vars.add(a_.arg)
         ann_nodes = set()
         for n in ast.walk(f.node):
             anns = []
@@ -196,7 +222,9 @@ def run(repo: Repo) -> Result:
                         res.add("C21-TOTAL", f.qual, f"pop-unguarded:{call_recv(c).id}", f"{f.qual}: `{text(c)}` raises IndexError when `{call_recv(c).id}` is empty (e.g. a stray end tag) — no dominating emptiness test", f.file, c.lineno)
 
         MustFlow(gen_cond=gen_cond, kill=kill, visit=visit).run(f.node)
-    audit = repo.own_method(TA, "_audit_tags")
+    from ..normalize import nfunc as _nf21
+
+    audit = _nf21(repo, repo.own_method(TA, "_audit_tags"), keep=("_valid_inner_tag",))  # the audit's private helpers inlined
     if not any(callee_name(c) == "pop" for c in calls(audit.node)):
         raise AnchorMissing("_audit_tags no longer pops its block stack; re-derive C21-TOTAL")
 
@@ -231,11 +259,24 @@ def run(repo: Repo) -> Result:
                 continue
             if callee_name(c) in ("add", "discard", "remove") and isinstance(call_recv(c), ast.Name) and call_recv(c).id != stack and call_recv(c).id not in report_vars:
                 res.add("C21-STACK", audit.qual, f"shadow-container:{call_recv(c).id}", f"_audit_tags mirrors the block stack in `{call_recv(c).id}` ({text(c)[:40]}): a set cannot count nested blocks of the same name", audit.file, c.lineno)
+        # the names the unclosed map goes by: the returned one and any local it was handed over
+        # from (`a, b, c = <helper's a, b, c>` after a helper is inlined)
+        unclosed_names = {unclosed_var}
+        for st_u in ast.walk(audit.node):
+            if isinstance(st_u, ast.Assign) and len(st_u.targets) == 1:
+                tg_u, vl_u = st_u.targets[0], st_u.value
+                if isinstance(tg_u, ast.Name) and tg_u.id in unclosed_names and isinstance(vl_u, ast.Name):
+                    unclosed_names.add(vl_u.id)
+                elif isinstance(tg_u, ast.Tuple) and isinstance(vl_u, ast.Tuple) and len(tg_u.elts) == len(vl_u.elts):
+                    for t_u, v_u in zip(tg_u.elts, vl_u.elts):
+                        if isinstance(t_u, ast.Name) and t_u.id in unclosed_names and isinstance(v_u, ast.Name):
+                            unclosed_names.add(v_u.id)
+
         def reports_unclosed(node, item: str) -> bool:
             """`<unclosed>[<item>.name].append(...)` somewhere inside node"""
             for c in calls(node):
                 r = call_recv(c)
-                if callee_name(c) in ("append", "extend") and isinstance(r, ast.Subscript) and is_name(r.value, unclosed_var) and text(r.slice) == f"{item}.name":
+                if callee_name(c) in ("append", "extend") and isinstance(r, ast.Subscript) and isinstance(r.value, ast.Name) and r.value.id in unclosed_names and text(r.slice) == f"{item}.name":
                     return True
             return False
 
@@ -392,7 +433,7 @@ def run(repo: Repo) -> Result:
                     r = repo.resolve_in(m, text(a)) if isinstance(a, (ast.Name, ast.Attribute)) else None
                     if r is not None and hasattr(r, "node") and reads_tags(r.node):
                         res.add("C21-LIVE", f"{m.name}.{nm}", "memoised-register", f"{m.name}.{nm} memoises {text(a)}, which reads a `.tags` register", m.relpath, v.lineno)
-    au = repo.own_method(TA, "_audit_tags")
+    au = _nf21(repo, repo.own_method(TA, "_audit_tags"), keep=("_valid_inner_tag",))
     res.ob(f"live:{au.qual}")
     from ..callgraph import CallGraph as _CG
 
